@@ -736,7 +736,7 @@ func (s *Service) ReceiveCheque(ctx context.Context, peer boson.Address, cheque 
 		return errors.New("account information error")
 	}
 
-	if cheque.Beneficiary != chainAddress && cheque.Recipient != s.Address() {
+	if cheque.Beneficiary != chainAddress || cheque.Recipient != s.Address() {
 		return errors.New("account information error ")
 	}
 
